@@ -284,6 +284,12 @@ def source_reset(ctx, db, rid='C06.source-reset'):
                     return 'zero' if len(it['args']) > 1 and it['args'][1].get('const') == 0 else 'other'
                 return None
             cw = [_cf_write(it) for it in tr if _cf_write(it)]
+            # the source still counts the handles that were just handed over: nothing that runs or drops "its" handles may be called on it
+            run_ = [it for it in tr if it.k == 'call' and rooted(it.get('recv') or '', src) and
+                    norm(it.get('callee') or '') in ('cocls::suspend_point::clear', 'cocls::suspend_point::suspend_now', 'cocls::suspend_point::flush', 'cocls::suspend_point::pop',
+                                                     'cocls::suspend_point::~suspend_point', 'cocls::suspend_point::await_suspend')]
+            if run_:
+                bad = bad or ('%s() is called on the source while it still counts the handles that were handed over: they are resumed by the source and again by the target' % norm(run_[0].get('callee')).split('::')[-1], tr)
             if not cw or cw[-1] != 'zero':
                 bad = bad or ('on some path the source is not reset to empty after its handles were taken (they would be resumed twice)', tr)
             if f['nname'].endswith('operator<<'):
